@@ -58,15 +58,18 @@ static bool span_ok(actx *c, const uint8_t *ptr, size_t size)
     return p >= b && p <= b + c->n && size <= c->n - (size_t)(p - b);
 }
 
+static bool lookup_in_array;     /* the lookup just allowed is issued inside an array (C16 mode only) */
 static bool lookups_allowed(actx *c)
 {
     binson_parser *p = c->p;
+    lookup_in_array = false;
     if (c->sp == 0) return false;
     if (p->depth < 1 || p->depth > p->max_depth) return false;
     binson_state *s = &p->state[p->depth - 1];
     if (mode16 && c->inited_ok && (s->flags & 0x000CU) != 0 && s->current_name.bptr != NULL) {
         /* C16 speaks about every call sequence: a lookup issued inside an array that is a field value must return too
          * (outside C01's assumption; allowed here only where the level has a field name, so no NULL name is compared) */
+        lookup_in_array = true;
         return true;
     }
     if (c->stack[c->sp - 1] != K_OBJ) return false;
@@ -231,6 +234,10 @@ static void do_call(actx *c, vrng *r, int a)
         if (cb_count > adv + 3) {
             char what[240]; snprintf(what, sizeof what, "%s processed %llu tokens while advancing the cursor by %llu bytes (from offset %zu to %zu)", ANAME[a], (unsigned long long)cb_count, (unsigned long long)adv, entry, reach);
             char sig[100]; snprintf(sig, sizeof sig, "c16:work:%s", ANAME[a]);
+            /* known finding (known_findings.txt): a lookup issued inside an array stops in front of every container element and reads
+             * its BEGIN token again when it goes on, one extra token per container (>= 2 bytes) stepped over. Only that much is
+             * attributed to the finding; anything beyond it is reported under the general signature. */
+            if (a >= A_FIELD && a <= A_FIELD_ENSURE_LEN && lookup_in_array && cb_count <= adv + adv / 2 + 3) snprintf(sig, sizeof sig, "c16:work:lookup-inside-array:%s", ANAME[a]);
             fail(c, sig, what);
         }
         vw_max("max_tokens_in_one_call", cb_count);
@@ -248,6 +255,27 @@ static void do_call(actx *c, vrng *r, int a)
             fail(c, "c16:work:verify", what);
         }
     }
+}
+
+/* directed witness of the known finding: {"A":[{},{},{},{},{}]}, a lookup of "B" issued inside the array */
+static void known_witness(void)
+{
+    static const uint8_t doc[] = { 0x40, 0x14, 0x01, 0x41, 0x42, 0x40, 0x41, 0x40, 0x41, 0x40, 0x41, 0x40, 0x41, 0x40, 0x41, 0x43, 0x41 };
+    uint8_t *buf = vg_exact(sizeof doc); memcpy(buf, doc, sizeof doc);
+    BINSON_PARSER_DEF(p);
+    bool ok = binson_parser_init_object(&p, buf, sizeof doc) && binson_parser_go_into_object(&p) && binson_parser_next(&p) && binson_parser_go_into_array(&p);
+    if (ok) {
+        p.cb = work_cb; cb_count = 0; cb_limit = 1000;
+        size_t entry = p.buffer_used;
+        bool ret = binson_parser_field_with_length(&p, "B", 1);
+        uint64_t adv = p.buffer_used >= entry ? p.buffer_used - entry : 0;
+        vw_count("known_witness_runs", 1);
+        if (cb_count > adv + 3)
+            vw_violation(cb_count <= adv + adv / 2 + 3 ? "c16:work:lookup-inside-array:field_with_length" : "c16:work:field_with_length",
+                         "field_with_length processed %llu tokens while advancing the cursor by %llu bytes (from offset %zu to %zu), returned %d\ninput (%zu bytes): 4014014142404140414041404140414341 = {\"A\":[{},{},{},{},{}]}\ncalls: init_object go_into_object next go_into_array field_with_length(\"B\") - the lookup is issued inside the array",
+                         (unsigned long long)cb_count, (unsigned long long)adv, entry, p.buffer_used, ret, sizeof doc);
+    } else vw_violation("c16:witness-setup", "the directed witness could not be set up (init/enter/next/enter failed on a valid document)");
+    vg_free(buf, sizeof doc);
 }
 
 /* "adversarial for work" inputs */
@@ -279,7 +307,11 @@ WITH_DEF(case_def_3, BINSON_PARSER_DEF_DEPTH(p, 3), 3)
 WITH_DEF(case_def_255, BINSON_PARSER_DEF_DEPTH(p, 255), 255)
 WITH_DEF(case_def_static, BINSON_PARSER_DEF_STATIC(p), BINSON_PARSER_DEFAULT_DEPTH)
 WITH_DEF(case_def_static_4, BINSON_PARSER_DEF_DEPTH_STATIC(p, 4), 4)
-static void case_initializer(vrng *r, uint64_t g) { binson_parser p = BINSON_PARSER(5); provided_p = &p; provided_st = p.state; provided_depth = 5; one_case(r, g); provided_p = NULL; }
+#define WITH_INIT(fn, depth) static void fn(vrng *r, uint64_t g) { binson_parser p = BINSON_PARSER(depth); provided_p = &p; provided_st = p.state; provided_depth = depth; one_case(r, g); provided_p = NULL; }
+WITH_INIT(case_initializer, 5)
+WITH_INIT(case_initializer_1, 1)
+WITH_INIT(case_initializer_40, 40)       /* the initializer form with depths on both sides of the default (10) */
+WITH_INIT(case_initializer_255, 255)
 
 static void one_case(vrng *r, uint64_t global)
 {
@@ -378,10 +410,11 @@ int main(int argc, char **argv)
     vrng r;
     for (uint64_t k = VA.start; k < VA.start + VA.cases && !vw_stop(); k++) {
         vw_case(k);
+        if (mode16 && k == 0 && VA.wid == 0) known_witness();
         vr_seed(&r, VA.seed, VA.wid, k);
         va_reset();
         uint64_t g = k * VA.nworkers + VA.wid;
-        switch (k % 16 == 7 ? (int)((k / 16) % 8) : -1) {
+        switch (k % 16 == 7 ? (int)((k / 16) % 11) : -1) {
         case 0: case_def_default(&r, g); break;
         case 1: case_def_1(&r, g); break;
         case 2: case_def_2(&r, g); break;
@@ -390,6 +423,9 @@ int main(int argc, char **argv)
         case 5: case_def_static(&r, g); break;
         case 6: case_def_static_4(&r, g); break;
         case 7: case_initializer(&r, g); break;
+        case 8: case_initializer_1(&r, g); break;
+        case 9: case_initializer_40(&r, g); break;
+        case 10: case_initializer_255(&r, g); break;
         default: one_case(&r, g);
         }
     }
